@@ -31,7 +31,10 @@ def row_params(an):
     return P
 
 
-def generic_part(V, tr, sd, checks=("C01",), emit=None):
+HEIGHTS = [0.0, 35.0, -20.0, 260.0, 12.0]
+
+
+def generic_part(V, tr, sd, checks=("C01",), emit=None, fluid=None, heights=False):
     """arbitrary nets emitted by the connectivity model, any component mix: reported flows must balance"""
     rnd = random.Random(sd + 1)
     r, nets = c04.gen_nets(emit or c04.SIM_EMIT, simulate="num=%d" % (40 if tr == "quick" else 700), depth=18, seed=500 + sd, timeout=1200)
@@ -40,21 +43,48 @@ def generic_part(V, tr, sd, checks=("C01",), emit=None):
         nets = rnd.sample(nets, 1200 if tr == "quick" else 30000)
     jobs = []
     for i, n in enumerate(nets):
-        fl = "lgas" if i % 3 == 0 else "water"
-        jobs.append({"id": "g%d" % i, "an": n["net"], "fluid": fl, "params": row_params(n["net"]), "opts": dict(c04.PF_OPTS), "check": list(checks), "prune": False})
+        fl = fluid or ("lgas" if i % 3 == 0 else "water")
+        prm = row_params(n["net"])
+        if heights or (emit is None and i % 4 == 3):
+            # junctions at different heights (hydrostatic terms; ambient pressure differs between the ends of a branch)
+            prm["heights"] = {j["lab"]: HEIGHTS[(j["lab"] + i) % len(HEIGHTS)] for j in n["net"]["J"]}
+            for _ in range(len(n["net"]["E"])):       # the two ends of a compressor (a zero-length machine) share a height
+                for e in n["net"]["E"]:
+                    if e["tbl"] == "compressor":
+                        prm["heights"][e["b"]] = prm["heights"][e["a"]]
+        for e in n["net"]["E"]:
+            if e["tbl"] == "compressor":
+                prm[("compressor", e["lab"])] = {"ratio": [1.25, 1.5, 1.125, 2.0][e["lab"] % 4]}
+        jobs.append({"id": "g%d" % i, "an": n["net"], "fluid": fl, "params": prm, "opts": dict(c04.PF_OPTS), "check": list(checks), "prune": False})
     cases = [c for c in core.pmap(pf.run_case_prune, jobs, chunksize=16) if "skip" not in c]
     suite_cov = {}
     if tr == "thorough" and emit is None:
         from . import suite
         scases, suite_cov = suite.pf_cases(list(checks))
         cases = cases + scases
+    ntr = 0
+    if emit is None and "C01" in checks:
+        # every time step of transient series (run_timeseries(transient=True), the pit is kept between the steps): the flows the net
+        # holds when the output writer is called must balance like those of any other returned calculation
+        from . import transient as TR
+        profs = [{"profile": list(p), "cod": False} for p in (("A", "B", "A"), ("B", "B", "A", "A"), ("A", "A"), ("B", "A", "B"))]
+        if tr == "thorough":
+            import itertools
+            profs = [{"profile": list(p), "cod": False} for n in (2, 3, 4) for p in itertools.product("AB", repeat=n)]
+        tj = TR.jobs_for("thorough", sd, profs)
+        for ts, pfc in core.pmap(TR.run_case, tj, chunksize=1):
+            for c in pfc:
+                c["check"] = list(checks)
+            cases += pfc
+            ntr += len(pfc)
     res, fails = c04.validate(cases)
     by_id = {c["id"]: c for c in cases}
     for f in fails:
         for cl in f["clauses"]:
             V.report(cl[0], cl[1], by_id[f["id"]], text="detail=%s case=%s" % (cl[2:], f["id"]))
     ret = sum(1 for c in cases if c["outcome"] == "returned")
-    return {"generic_nets_run": len(cases), "generic_nets_returned": ret, "generic_failures": len(fails), "repository_suite": suite_cov}
+    return {"generic_nets_run": len(cases), "generic_nets_returned": ret, "generic_failures": len(fails), "repository_suite": suite_cov,
+            "transient_time_steps_checked": ntr}
 
 
 def main():
@@ -102,8 +132,11 @@ def relational_part(V, prop, relkind, tr, sd, workers=None, ncap=None):
         nets = nets + n2
     jobs = []
     for i, n in enumerate(nets):
-        seq = (i % 2 == 0)
-        opts = dict(c04.PF_OPTS, mode="sequential" if seq else "hydraulics", max_iter_therm=60, tol_T=1e-9)
+        # modes in turn: sequential, hydraulics only, bidirectional (temperature-dependent properties evaluated along the actual flow
+        # direction, which differs from the declared one for a swapped branch)
+        md = ("sequential", "hydraulics", "bidirectional")[i % 3] if relkind in ("rev", "iso") else ("sequential" if i % 2 == 0 else "hydraulics")
+        seq = md != "hydraulics"
+        opts = dict(c04.PF_OPTS, mode=md, max_iter_therm=60, max_iter_bidirect=80, tol_T=1e-9)
         prm = row_params(n["net"])
         if relkind == "numba":
             prm["tn"], prm["tn_step"] = 300.0, 9.0        # different junction temperatures (gas norm factors at both ends)
